@@ -117,21 +117,27 @@ def check(ctx):
             if direct:
                 ctx.ok("return-value/flow", cons, "called back with <handler exception>.value inside the handler")
                 continue
-            ctx.check(is_name(V), "return-value/flow", cons, "the result is not called back with the value variable")
+            # the value variable, possibly boxed: `returned[0]` with `returned = (<value>,)` ("optional as a 1-tuple")
+            boxed = isinstance(V, ast.Subscript) and isinstance(V.value, ast.Name) and isinstance(V.slice, ast.Constant) and V.slice.value == 0
+            Vn = V.value if boxed else V
+            unbox = (lambda v: v.elts[0] if isinstance(v, ast.Tuple) and len(v.elts) == 1 else None) if boxed else (lambda v: v)
+            ctx.check(is_name(Vn), "return-value/flow", cons, "the result is not called back with the value variable")
+            V = Vn
             wit = avoiding_path(g, [g.entry], [n], stop_h)
             ctx.check(wit is None, "fire/callback-only-on-return", cons,
                       "the result can be called back although the generator has not returned (it merely yielded)", witness=g.describe(wit))
             if is_name(V):
                 for h in sorted(stop_h):
                     e = g.node(h).ast.name
-                    good = stmt_nodes(g, lambda st: any(is_name(t, V.id) and v is not None and _value_of(v, e) for t, v in targets_values(st)))
+                    good = stmt_nodes(g, lambda st: any(is_name(t, V.id) and v is not None and unbox(v) is not None and _value_of(unbox(v), e) for t, v in targets_values(st)))
                     wit = avoiding_path(g, [h], [n], good)
                     ctx.check(bool(e) and wit is None, "return-value/flow", ctx.construct(q, "except " + "/".join(handler_names(g.node(h).ast))),
                               f"the value passed to the result Deferred is not taken from the exception's .value on every path (variable {V.id})",
                               witness=g.describe(wit))
                 others = [d for d in name_assign_nodes(g, V.id) if not any(
                     is_name(t, V.id) and v is not None and (isinstance(v, ast.Constant) or (isinstance(v, (ast.Name, ast.Attribute)) and (dotted(v) or "").split(".")[0] not in M.local_names)
-                                                        or any(_value_of(v, g.node(h).ast.name) for h in stop_h))
+                                                        or (isinstance(v, (ast.Tuple, ast.List)) and not v.elts)
+                                                        or (unbox(v) is not None and any(_value_of(unbox(v), g.node(h).ast.name) for h in stop_h)))
                     for t, v in targets_values(g.node(d).ast))]
                 ctx.check(not others, "return-value/flow", cons + " (other definitions)", f"{V.id} is also assigned from something that is not the generator's return value")
         for h in sorted(stop_h):
@@ -194,7 +200,16 @@ def check(ctx):
                   "nothing is registered on the Deferred the generator yielded: the generator is never resumed")
         for r in M.regs:
             c = M.reg_calls[r]
-            ctx.check(isinstance(c.func.value, ast.Name) and c.func.value.id == res, "await/registered-on-yielded-object", ctx.construct(q, c),
+            rv = c.func.value
+
+            def is_yielded(name):
+                """`res`, or a local every definition of which is `= res` / `= _cancellableInlineCallbacks(res)` (the Deferred of a yielded generator)"""
+                if name == res:
+                    return True
+                vals = [v for d in name_assign_nodes(g, name) for t, v in targets_values(g.node(d).ast) if is_name(t, name)]
+                return bool(vals) and all(v is not None and (is_name(v, res) or (isinstance(v, ast.Call) and is_name(v.func, "_cancellableInlineCallbacks")
+                                                                                 and len(v.args) == 1 and is_name(v.args[0], res))) for v in vals)
+            ctx.check(isinstance(rv, ast.Name) and is_yielded(rv.id), "await/registered-on-yielded-object", ctx.construct(q, c),
                       f"the helper is not registered on the object the generator yielded (`{res}`)")
             for outcome, callee, extra in M.routes[r]:
                 what = "success" if outcome == "ok" else "failure"
@@ -827,6 +842,12 @@ MUTANTS = [
            expect_rule="resume/decision-uses-this-iterations-outcome"),
     Mutant("cancel-forwarded-only-to-uncalled-links", D, "        elif isinstance(self.result, Deferred):\n            # Waiting for another deferred -- cancel it instead.\n",
            "        elif isinstance(self.result, Deferred) and not self.result.called:\n            # Waiting for another deferred -- cancel it instead.\n", expect_rule="C03:cancel/forward"),
+    Mutant("boxed-return-value-from-the-wrong-source", D, "    stopIteration: bool = False\n    callbackValue: Any = None\n", "    done: tuple = ()\n",
+           more=[(D, "            stopIteration = True\n            callbackValue = getattr(e, \"value\", None)\n", "            done = (result,)\n"),
+                 (D, "            stopIteration = True\n            callbackValue = e.value\n", "            done = (e.value,)\n"),
+                 (D, "        if stopIteration:\n", "        if done:\n"),
+                 (D, "            status.deferred.callback(callbackValue)\n", "            status.deferred.callback(done[0])\n")],
+           expect_rule="return-value/flow"),
 ]
 SILENT = [
     Silent("cancel-attribute-directly", D, "    awaited = status.waitingOn\n    assert awaited is not None\n    awaited.cancel()\n", "    assert status.waitingOn is not None\n    status.waitingOn.cancel()\n"),
@@ -888,4 +909,12 @@ SILENT = [
                  (D, "            stopIteration = True\n            callbackValue = e.value\n", "            answer = e.value\n"),
                  (D, "        if stopIteration:\n", "        if answer is not _NO_RESULT:\n"),
                  (D, "            status.deferred.callback(callbackValue)\n", "            status.deferred.callback(answer)\n")]),
+    Silent("return-value-boxed-in-a-one-tuple-and-named-cell-slots", D, "    stopIteration: bool = False\n    callbackValue: Any = None\n", "    done: tuple = ()\n",
+           more=[(D, "            stopIteration = True\n            callbackValue = getattr(e, \"value\", None)\n", "            done = (getattr(e, \"value\", None),)\n"),
+                 (D, "            stopIteration = True\n            callbackValue = e.value\n", "            done = (e.value,)\n"),
+                 (D, "        if stopIteration:\n", "        if done:\n"),
+                 (D, "            status.deferred.callback(callbackValue)\n", "            status.deferred.callback(done[0])\n"),
+                 (D, "    if waiting[0]:\n        waiting[0] = False\n        waiting[1] = r\n    else:\n        _inlineCallbacks(r, gen, status, context)\n",
+                  "    if not waiting[_FLAG]:\n        _inlineCallbacks(r, gen, status, context)\n        return\n    waiting[_FLAG] = False\n    waiting[_VALUE] = r\n"),
+                 (D, "def _gotResultInlineCallbacks(\n", "_FLAG = 0\n_VALUE = 1\n\n\ndef _gotResultInlineCallbacks(\n")]),
 ]
